@@ -410,7 +410,7 @@ func zzFinResumeClient() {
 // (RFC 5246 section 7.3 figure 2 order, label of the peer); otherwise fatal handshake_failure +
 // ErrVerifyDataMismatch and no flight.
 //
-//symgo:entry covers=accepted,rejected,with_hvr,without_hvr,short_verify_data
+//symgo:entry covers=accepted,rejected,with_hvr,without_hvr,short_verify_data,waiting_without_client_finished
 func zzFinResumeServer() {
 	zzFinReset()
 	suite := &zzFinSuite{auth: ciphersuite.AuthenticationTypeCertificate, kx: ciphersuite.KeyExchangeAlgorithmEcdhe, initialized: true}
@@ -428,6 +428,15 @@ func zzFinResumeServer() {
 	sh := fl.push("sh", handshake.TypeServerHello, false, 0)
 	sfin := fl.push("sfin", handshake.TypeFinished, false, 1)
 	state.HandshakeRecvSequence = int(fl.nextClient)
+	if zzsymChoice("client_finished_arrived", 2) == 0 {
+		// nothing but the (possibly retransmitted) ClientHello has arrived from the client so far: the server keeps
+		// waiting - no flight, in particular not "Flight4b = handshake complete", comes out of the parser
+		next, a, err := flight4bParse(context.Background(), &zzFinConn{}, state, fl.cache, cfg)
+		zzsymAssert(next == 0, "fin_resume_server/no_completion_without_client_finished")
+		zzsymAssert(a == nil && err == nil, "fin_resume_server/waits_quietly_for_client_finished")
+		zzsymCover("waiting_without_client_finished")
+		return
+	}
 	vdLen := 12 - zzsymChoice("verify_data_short", 2)
 	verifyData := zzsymBytes("verify_data", vdLen)
 	fl.pushBody(handshake.TypeFinished, true, 1, verifyData)
